@@ -5,6 +5,7 @@ import (
 	"fmt"
 	"os"
 	"path/filepath"
+	"regexp"
 	"strconv"
 	"strings"
 	"sync"
@@ -27,6 +28,9 @@ type genParser struct {
 	Receiver  string          `json:"receiver"`
 	Has       map[string]bool `json:"has"`
 	Rejected  string          `json:"rejected,omitempty"`
+	// GrammarVar is the package-level variable holding the grammar value in the
+	// generated file, found by its shape (var X = &T{ rules: ...), not by name.
+	GrammarVar string `json:"grammar_var,omitempty"`
 }
 
 type parserWorld struct {
@@ -78,6 +82,8 @@ func newGenParser(name string, g *gen.Grammar, flags []string) *genParser {
 	return gp
 }
 
+var grammarVarRe = regexp.MustCompile(`(?m)^var (\w+) = &\w+\s*\{\s*\n\s*rules:`)
+
 const glueTemplate = `package %[1]s
 
 import (
@@ -97,7 +103,7 @@ func init() {
 		Has:         %[5]s,
 		Parse:       verifParse,
 		Inspect:     verifInspect,
-		G:           func() any { return g },
+		G:           func() any { return %[8]s },
 	})
 }
 
@@ -175,7 +181,11 @@ func (gp *genParser) glue() string {
 		has += fmt.Sprintf("%q: %v, ", k, gp.Has[k])
 	}
 	has += "}"
-	return fmt.Sprintf(glueTemplate, gp.Name, strconv.Quote(string(gj)), strconv.Quote(gp.Text), fmt.Sprintf("%#v", append([]string{}, gp.Flags...)), has, optCode, deferCode)
+	gvar := gp.GrammarVar
+	if gvar == "" {
+		gvar = "nil"
+	}
+	return fmt.Sprintf(glueTemplate, gp.Name, strconv.Quote(string(gj)), strconv.Quote(gp.Text), fmt.Sprintf("%#v", append([]string{}, gp.Flags...)), has, optCode, deferCode, gvar)
 }
 
 // buildParserWorld generates, instruments and links the given parsers.
@@ -215,6 +225,9 @@ func buildParserWorld(scratch, pigeonBin string, specs []*genParser, race bool) 
 				gp.Rejected = err.Error()
 				os.RemoveAll(pdir)
 				return
+			}
+			if m := grammarVarRe.FindSubmatch(src); m != nil {
+				gp.GrammarVar = string(m[1])
 			}
 			gp.Has = map[string]bool{}
 			for _, f := range []string{"Statistics", "Memoize", "Debug", "InitState"} {
